@@ -25,7 +25,7 @@ def run_case(exe, casedir, ops, short="-", keep=False, tmpdir=False, fresh=True)
     env = dict(os.environ)
     env.pop("VERIF_TMPDIR", None)
     if tmpdir:
-        env["VERIF_TMPDIR"] = "1"
+        env["VERIF_TMPDIR"] = tmpdir if isinstance(tmpdir, str) else "1"
     env["ASAN_OPTIONS"] = "detect_leaks=0:abort_on_error=0:exitcode=99"
     env["UBSAN_OPTIONS"] = "halt_on_error=1:exitcode=98"
     try:
@@ -298,7 +298,25 @@ def run_c01(prop, tier):
                 ctx.violation("OVNI_TMPDIR mode, program %s: %s" % (prog, msg),
                               {"engine": "E1 rt_driver", "bufsz": None, "program": prog, "short": "-", "oracle": "C01", "tmpdir": True},
                               {"kind": "tmpdir-relocation"})
-        ctx.part("tmpdir-relocation", runs=len(jobs_t))
+        # OVNI_TMPDIR naming the trace directory itself (same string, or another spelling of the same directory)
+        jobs_s = [(prog, how) for prog in jobs_t[:4] + jobs_t[-2:] for how in ("same", "alias")]
+
+        def one_s(j):
+            prog, how = j
+            cd = os.path.join(base, "s%d" % os.getpid())
+            rc, err, log = run_case(exe, cd, prog, tmpdir=how)
+            msg = oracle(cd, log, rc, err)
+            shutil.rmtree(cd, ignore_errors=True)
+            return msg
+        for (prog, how), msg in zip(jobs_s, pmap(one_s, jobs_s)):
+            ctx.add(evaluations=1, transitions=len(prog))
+            if msg == "ABORTED":
+                continue        # refusing the configuration with a diagnostic loses nothing silently
+            if msg is not None:
+                ctx.violation("OVNI_TMPDIR is the trace directory itself (%s), program %s: %s" % (how, prog, msg),
+                              {"engine": "E1 rt_driver", "bufsz": None, "program": prog, "short": "-", "oracle": "C01", "tmpdir": how},
+                              {"kind": "tmpdir-is-tracedir", "how": how})
+        ctx.part("tmpdir-relocation", runs=len(jobs_t), tmpdir_is_tracedir_runs=len(jobs_s))
         # (iii) deviation-bounded short writes on every write of every path of depth <= 2/3 (small capacity)
         B = 64
         exe = build_driver(build, B)
